@@ -83,6 +83,20 @@ def check_case(ctx, cs):
         if crv.degree != p or crv.ctrlpts_size != ncp:
             ctx.violate(site, tg + ["structure"], small, {"degree": crv.degree, "ctrlpts_size": crv.ctrlpts_size})
             return
+        # the data as a tuple of lists: it is not altered by the call, and the same call again returns the same curve (as a new object)
+        def twice():
+            data = tuple(list(x) for x in pts)
+            f_ = (lambda: fitting.interpolate_curve(data, p, centripetal=c["centr"])) if op == "interp_curve" else (lambda: fitting.approximate_curve(data, p, centripetal=c["centr"], ctrlpts_size=ncp))
+            c1 = f_()
+            snap1 = ([list(q) for q in c1.ctrlpts], list(c1.knotvector), c1.degree)
+            c2 = f_()
+            return [list(x) for x in data], snap1, ([list(q) for q in c2.ctrlpts], list(c2.knotvector), c2.degree), ([list(q) for q in c1.ctrlpts], list(c1.knotvector), c1.degree), c1 is c2
+        ok, r_ = _try(ctx, site, tg + ["tuple_of_lists", "called_twice"], small, twice)
+        if ok:
+            if not close_seq(r_[0], pts, 1e-15):
+                ctx.violate(site, tg + ["input_modified"], small, {"data_after": r_[0][:3]})
+            elif r_[4] or not close_seq(list(r_[2][0]), [list(x) for x in crv.ctrlpts], 1e-9) or not close_seq(list(r_[3][0]), r_[1][0], 1e-15) or r_[3][2] != r_[1][2]:
+                ctx.violate(site, tg + ["called_twice"], small, {"same_object_returned": r_[4], "second_first_point": r_[2][0][0]})
         # fitting commutes with translations and uniform scalings (the parameters are ratios of lengths): the same data far from the
         # origin (offset 2^20 + 0.1 per coordinate, not a machine number) and in a very small unit (factor 2^-30) - same knot vector, control points moved / scaled
         base = [list(x) for x in crv.ctrlpts]
